@@ -304,6 +304,10 @@ class ReadPduTask(Task):
         # the cursor ends exactly at the start of the next PDU, whatever the chunking was
         I.ob(f"C03/{READ}/framing-lemma:complete-PDU-advances-cursor-to-next-PDU",
              z3.Implies(z3.And(complete, known), g["pos"] == p0 + 6 + L))
+        # C02 (conformant acceptance): a complete PDU of a known type is never dropped by the framing layer - its reserved
+        # header byte is 'not tested when received' (PS3.8 9.3), the 4-byte length alone decides how much is read
+        I.ob(f"C02/{READ}/a-complete-PDU-of-a-known-type-reaches-the-decoder-whatever-its-reserved-header-byte-is",
+             z3.Implies(z3.And(complete, known), z3.BoolVal(bool(decs))))
 
 
 def _bound(I, qual, selfv):
